@@ -109,9 +109,8 @@ def r3(run, db):
         len(ff.bodies), ff.iterations, len(ff.roots), len([f for f in ff.bodies if f.raw.get("vis") == "Public"])), "see individual root violations")
 
 
-def loop_result_ctors(db):
-    """fns building ActorLoopResult with constant flags -> class name by (should_exit, was_killed)"""
-    out = {}
+def _loop_result_aggs(db):
+    out = []
     for f in db.crate_fns("ractor"):
         for site, s in f.aggregates(adt="ActorLoopResult"):
             rv = s["rv"]
@@ -119,9 +118,67 @@ def loop_result_ctors(db):
             for nm, o in zip(rv["fields"], rv["ops"]):
                 cv = f.value_consts(o)
                 vals[nm] = cv[0] if len(cv) == 1 else None
-            se, wk = vals.get("should_exit"), vals.get("was_killed")
-            cls = {("false", "false"): "ok", ("true", "false"): "stop", ("true", "true"): "signal"}.get((se, wk), "other:%s/%s" % (se, wk))
-            out.setdefault(f.id, []).append((cls, site))
+            out.append((f, site, vals))
+    return out
+
+
+_LRF_CACHE = {}
+
+
+def loop_result_fields(db):
+    """(exit_field, killed_field) of the step result, by role rather than by name or polarity.  Three combinations of constant
+    values are ever built: (go on), (exit, not killed), (exit, killed).  The exit field (and its `exit` value) is the one the
+    message loop tests to leave: an edge of a two-way switch on it dominates the loop block's Ok return.  The other field is
+    the killed flag; its not-killed value is the one it has in the (go on) combination.
+    Returns dict(exit=(field, value), killed=(field, value))."""
+    if id(db) in _LRF_CACHE:
+        return _LRF_CACHE[id(db)]
+    aggs = _loop_result_aggs(db)
+    flds = sorted(set(k for _, _, v in aggs for k, x in v.items() if x in ("true", "false")))
+    combos = set(tuple(v.get(k) for k in flds) for _, _, v in aggs)
+    if len(flds) != 2 or len(combos) != 3 or any(None in c for c in combos):
+        raise AnchorLost("step result: two constant flags in three combinations (fields %s, combinations %s)" % (flds, sorted(combos, key=str)))
+    m = model(db)
+    found = None
+    for rt in m.runtimes():
+        lb = m.loop_body(rt)
+        pb_root = db.root_of(m.proc_body(rt))
+        for lp in [ch for ch in db.children(lb.id) if any(x.callee == pb_root.id for x in ch.calls())]:
+            rets = ok_return_sites(lp) or [s_ for s_, st in lp.aggregates(adt="std::result::Result", variant="Ok")]
+            for site, t in lp.switches():
+                if t["dty"] != "bool":
+                    continue
+                for r in lp.origins(t["discr"], through=THROUGH_TRY):
+                    names = [e.split(":")[2] for e in r.get("proj", []) + r.get("trail", []) if e.startswith("f:") and len(e.split(":")) > 2]
+                    for fld in flds:
+                        if fld in names:
+                            for v in ("true", "false"):
+                                e = lp.edge_of(site, v)
+                                if e and rets and all(lp.edge_dominates(e, x) for x in rets):
+                                    found = (fld, v)
+    if found is None:
+        raise AnchorLost("step result: the flag the message loop tests to leave")
+    ef, ev = found
+    kf = [f_ for f_ in flds if f_ != ef][0]
+    ei, ki = flds.index(ef), flds.index(kf)
+    goon = [c for c in combos if c[ei] != ev]
+    if len(goon) != 1:
+        raise AnchorLost("step result: exactly one `go on` combination")
+    out = {"exit": (ef, ev), "killed": (kf, "false" if goon[0][ki] == "true" else "true")}
+    _LRF_CACHE[id(db)] = out
+    return out
+
+
+def loop_result_ctors(db):
+    """fns building ActorLoopResult with constant flags -> class name by (exits, killed)"""
+    pol = loop_result_fields(db)
+    (ef, ev), (kf, kv) = pol["exit"], pol["killed"]
+    out = {}
+    for f, site, vals in _loop_result_aggs(db):
+        se = None if vals.get(ef) is None else ("true" if vals.get(ef) == ev else "false")
+        wk = None if vals.get(kf) is None else ("true" if vals.get(kf) == kv else "false")
+        cls = {("false", "false"): "ok", ("true", "false"): "stop", ("true", "true"): "signal"}.get((se, wk), "other:%s/%s" % (se, wk))
+        out.setdefault(f.id, []).append((cls, site))
     return out
 
 
